@@ -328,3 +328,33 @@ mod tests {
         assert_eq!((min, max), (8, 8));
     }
 }
+
+/// Verification hooks (compiled only with `--cfg rustyyato_chess_verif`): a checker needs to
+/// start the book iterator at an arbitrary node and to read the cursor back.
+#[cfg(rustyyato_chess_verif)]
+pub mod verif {
+    use super::{lichess_book, BookMoves, BookMovesIter};
+
+    pub const BOOK_SIZE: usize = lichess_book::BOOK_SIZE;
+
+    /// raw table word `i`
+    pub fn book_word(i: usize) -> u16 {
+        lichess_book::BOOK[i]
+    }
+
+    impl BookMoves {
+        pub const fn verif_from_index(index: usize) -> Self {
+            Self { index }
+        }
+
+        pub const fn verif_index(self) -> usize {
+            self.index
+        }
+    }
+
+    impl BookMovesIter {
+        pub fn verif_index(&self) -> usize {
+            self.index
+        }
+    }
+}
